@@ -46,6 +46,24 @@ PROPS = {
         'trusted': ["H-AEAD, H-CLOCK; Ww.Model.Sys hand-written from session_reader.go/session_manager.go/reverseproxy.go/handler.go, tied by the hist driver"],
         'assumptions': ["H-AEAD", "H-CLOCK"],
     },
+    'C02': {
+        'proofs': ['Ww.Proofs.C02'],
+        'gen_sections': [],
+        'drivers': [{'name': 'c02'}],
+        'reasons': ['C02.'],
+        'class_fields': {},
+        'nontrivial': {'cb': lambda f: f.get('kind') != 'absent' or f.get('calls') != '0'},
+        'rule': "c02 driver: callback lattice {login cookie: own, absent, empty, not base64, truncated, bit-flipped, other key, other attempt's, LOGOUT cookie's ciphertext, SESSION cookie's ciphertext, plaintext JSON} x "
+                "{state: equal, absent, empty, other attempt's, garbage, the presented cookie's} x {code: valid, absent, empty, other attempt's} x {error} x {iss: absent, equal, different} x {iss supported}; "
+                "quick = all single and pairwise deviations + a sample of higher ones, thorough = full product; fresh login attempts per case (two interleaved attempts). distinct = lattice point; non-trivial = a cookie was presented or the provider was called.",
+        'level_text': "Proof: for every cookie condition and every query, the callback model makes a back-channel call only if the cookie is authentic AND was minted by Login (a logout or session ciphertext decodes "
+                      "to an incomplete LoginCookie and is refused), there is no error parameter, state is present and equal to the cookie's, iss equals the issuer when advertised - and the call carries exactly the "
+                      "cookie's verifier and redirect URI; otherwise no call is made. The model is tied to the real handler by the full lattice; the Spec is evaluated on the provider's request log and the store key set.",
+        'level_note': "Trusted: Lean kernel; AEAD authenticity (an authentic ciphertext was produced by one of this deployment's three EncryptAndSet sites); encoding/json struct decoding rule (modelled in Minted.asLoginCookie, tied by the cookie-swap cases); ID-token checks are C03.",
+        'technique': 'Lean 4 proof of the decision chain (cookie-type reasoning under symbolic AEAD) + exhaustive lattice correspondence against the real callback handler',
+        'trusted': ["H-AEAD", "encoding/json decoding rule"],
+        'assumptions': ["H-AEAD"],
+    },
     'C06': {
         'proofs': ['Ww.Proofs.C06'],
         'gen_sections': ['Meta', 'pkg/session/data.go'],
